@@ -265,6 +265,66 @@ def function_level(chk, root):
                     if rec.mutations or fsaudit.snapshot([data]) != before:
                         fails.append(dict(clause="no-mutation-under-storage-paths", level="function", damaged_store=True,
                                           events=rec.mutations[:4], budget=budget))
+        # a store that was written at one place and is opened read-only at another (link files record absolute paths): reads
+        # may fail or recompute, nothing is modified
+        shutil.rmtree(data, ignore_errors=True)
+        m.Environment.set(env_with(FilesystemStorageBackend(path=data), base=base))
+        assert mfns.ga(1) == 1 and mfns.gb(2) == [2, "gb"]
+        moved = os.path.join(base, "moved")
+        shutil.rmtree(moved, ignore_errors=True)
+        os.rename(data, moved)
+        for budget in (None, 1):
+            kw = dict(memory_cache_mb=budget) if budget else {}
+            before = fsaudit.snapshot([moved])
+            m.Environment.set(env_with(FilesystemStorageBackend(path=moved, read_only=True, **kw), base=base))
+            with fsaudit.Recorder([moved]) as rec:
+                outs = []
+                for thunk in (lambda: mfns.ga(1), lambda: mfns.gb(2), lambda: mfns.ga.memento(1), lambda: mfns.ga.list_mementos(), lambda: mfns.ga(1)):
+                    try:
+                        thunk()
+                        outs.append("ok")
+                    except Exception as e:          # noqa: reads of a relocated store may fail; they must not write
+                        outs.append(type(e).__name__)
+            chk.case(["moved-read-only", budget], sample=dict(kind="store moved, opened read-only", outs=outs))
+            if rec.mutations or fsaudit.snapshot([moved]) != before:
+                fails.append(dict(clause="no-mutation-under-storage-paths", level="function", moved_store=True, events=rec.mutations[:4], budget=budget))
+        # a configuration that says read-only, used once with the documented override read_only=False (a populating job) and
+        # then as it is: the second backend is read-only
+        shutil.rmtree(data, ignore_errors=True)
+        cfg = {"path": data, "readonly": True}
+        m.Environment.set(env_with(FilesystemStorageBackend(config=cfg, read_only=False), base=base))
+        assert mfns.ga(1) == 1
+        st = FilesystemStorageBackend(config=cfg)
+        m.Environment.set(env_with(st, base=base))
+        before = fsaudit.snapshot([data])
+        mfns.REC.calls.clear()
+        with fsaudit.Recorder([data]) as rec:
+            outs = [mfns.ga(1), mfns.ga(5)]
+            try:
+                mfns.ga.forget()
+                outs.append("forget-accepted")
+            except ValueError:
+                outs.append("ValueError")
+        chk.case(["shared-config-object"], sample=dict(kind="read-only configuration object used with an override before", outs=str(outs)))
+        if outs != [1, 5, "ValueError"] or rec.mutations or fsaudit.snapshot([data]) != before:
+            fails.append(dict(clause="no-mutation-under-storage-paths", level="function", shared_config_object=True, outs=str(outs), events=rec.mutations[:4]))
+        # a function of a local-runner cluster calls functions of a null-runner cluster: those bodies never run
+        shutil.rmtree(data, ignore_errors=True)
+        from twosigma.memento import Environment, ConfigurationRepository, FunctionCluster
+        for nested_storage in ("fs", "null"):
+            m.Environment.set(Environment(name="verif", base_dir=base, repos=[ConfigurationRepository(name="r", clusters={
+                "vl": FunctionCluster(name="vl", storage=FilesystemStorageBackend(path=os.path.join(base, "vl_" + nested_storage))),
+                "vc": FunctionCluster(name="vc", runner=NullRunnerBackend(),
+                                      storage=(FilesystemStorageBackend(path=data) if nested_storage == "fs" else NullStorageBackend()))})]))
+            mfns.REC.calls.clear()
+            try:
+                out = ("ok", mfns.outer_local(40))
+            except Exception as e:      # noqa
+                out = type(e).__name__
+            chk.case(["nested-null-runner", nested_storage], sample=dict(kind="nested call into a null-runner cluster", out=str(out)))
+            ran = [c for c in mfns.REC.calls if c[0] in ("ga", "gb")]
+            if ran:
+                fails.append(dict(clause="null-runner-never-executes", nested=True, storage=nested_storage, calls=ran, out=str(out)))
         # null storage
         ns = NullStorageBackend()
         w = sw.World(dict(kind="mem"))
